@@ -521,6 +521,11 @@ fn inc(rng: &mut Rng, ctx: &mut Ctx) {
             Ok(format!("ok {}", trace.join(",")))
         }));
         let line = match res { Err(_) => { fails.push(("C06".into(), "incremental API panicked on a well-formed replay".into())); "panic".into() } Ok(Err(e)) => { if fl.starts_with("ok") { fails.push(("C12".into(), format!("incremental parse failed where one-shot succeeds: {}", e))); } e } Ok(Ok(s)) => s };
+        // the one-shot reader on the same bytes embedded in a larger stream (not at position 0, more bytes behind): the incremental API never seeks,
+        // so the one-shot reader must not depend on absolute positions either
+        if k % 3 == 0 { let pre = [3usize, 15, 64, 700][(k / 3) % 4]; let at = read_line_at(&b, false, false, pre, [0usize, 9][(k / 12) % 2]);
+            if at != fl { fails.push(("C12".into(), format!("one-shot read from stream position {} differs from the one at position 0 (which the incremental API agrees with): {} vs {}", pre, &at[..at.len().min(100)], &fl[..fl.len().min(100)]))); }
+            tags.push("embedded".into()); }
         let mut c = Case::new(format!("inc {}", hex(&b)), line); c.oracle = fails; tags.push(format!("plan:{}", pname)); c.tags = tags;
         ctx.push(c);
     }
